@@ -170,10 +170,50 @@ impl WalManager {
             checkpoint_epoch: Mutex::new(None),
         };
 
+        // After a crash the newest log may end in a partially written record; anything
+        // appended behind those bytes would be unreachable for recovery.
+        manager.truncate_torn_tail()?;
+
         // Open or create the active log
         manager.ensure_active_log()?;
 
         Ok(manager)
+    }
+
+    /// Cuts the log that is about to be appended to back to its last complete,
+    /// checksum-valid record.
+    fn truncate_torn_tail(&self) -> Result<()> {
+        let path = self.log_path(self.current_sequence.load(Ordering::Relaxed));
+        let Ok(file) = OpenOptions::new().read(true).write(true).open(&path) else {
+            return Ok(());
+        };
+        let file_len = file.metadata()?.len();
+        let mut reader = BufReader::new(&file);
+        let mut valid_len = 0u64;
+        loop {
+            let mut len_buf = [0u8; 4];
+            if reader.read_exact(&mut len_buf).is_err() {
+                break;
+            }
+            let len = u64::from(u32::from_le_bytes(len_buf));
+            if valid_len + 4 + len + 4 > file_len {
+                break;
+            }
+            let mut data = vec![0u8; len as usize];
+            let mut checksum_buf = [0u8; 4];
+            if reader.read_exact(&mut data).is_err()
+                || reader.read_exact(&mut checksum_buf).is_err()
+                || u32::from_le_bytes(checksum_buf) != crc32fast::hash(&data)
+            {
+                break;
+            }
+            valid_len += 4 + len + 4;
+        }
+        if valid_len < file_len {
+            file.set_len(valid_len)?;
+            file.sync_all()?;
+        }
+        Ok(())
     }
 
     /// Logs a record to the WAL.
